@@ -222,7 +222,7 @@ Proof.
       rewrite vsub_self, wdot_zmap_r, sqrtf_0. rewrite (Reqb_true 0 0) by reflexivity. cbn [eadd]. numR.
       rewrite (wdot_comm w b x). fin_ring.
   - (* FLeft *) cbn [wf] in Hwf. destruct Hwf as [Hs Hwf].
-    rewrite cval_FLeft in Hc by (eauto using wf_lin_ok). cbn [value grad] in Hv, Hg.
+    rewrite cval_FLeft in Hc by assumption. cbn [value grad] in Hv, Hg.
     destruct (grd f w x) as [g0|] eqn:E0; cbn [rbind] in Hg; inv_ok.
     destruct (val f w x) as [v|] eqn:E1; cbn [rbind] in Hv; inv_ok.
     rewrite vscal_inv_l in Hc by lra.
@@ -230,7 +230,7 @@ Proof.
     pose proof (IHf n w x g0 v v' Hwf Hw Lw Lx E0 E1 E2) as H.
     apply (geq_escal s) in H. rewrite wdot_vscal_r. exact H.
   - (* FRight *) cbn [wf] in Hwf. destruct Hwf as [Hs Hwf].
-    rewrite cval_FRight in Hc by (eauto using wf_lin_ok). cbn [value grad] in Hv, Hg.
+    rewrite cval_FRight in Hc by assumption. cbn [value grad] in Hv, Hg.
     destruct (grd f w (vscal s x)) as [g0|] eqn:E0; cbn [rbind] in Hg; inv_ok.
     rewrite vscal_inv_l in Hc by assumption.
     pose proof (IHf n w (vscal s x) g0 vx vg Hwf Hw Lw ltac:(rewrite vscal_length; assumption) E0 Hv Hc) as H.
@@ -262,7 +262,7 @@ Proof.
     apply (geq_shift_r _ _ _ (wdot w gx t)) in H.
     apply (geq_shift_r _ _ _ 0) in H.
     eapply geq_eq; [|exact H]. rewrite (wdot_comm w t gx). ring.
-  - (* FQuadPert *) cbn [wf] in Hwf. destruct Hwf as (Ha & Lu & Hwf & _).
+  - (* FQuadPert *) cbn [wf] in Hwf. destruct Hwf as (Ha & Lu & Hwf).
     destruct (Req_dec a 0) as [->|Hna]; [|rewrite cval_FQuadPert_a in Hc by assumption; discriminate].
     rewrite cval_FQuadPert0 in Hc. cbn [value grad] in Hv, Hg. numR.
     destruct (grd f w x) as [g0|] eqn:E0; cbn [rbind] in Hg; inv_ok.
